@@ -287,6 +287,9 @@ structure Cfg where
   likely : Bool
   /-- buffer lengths at which the sniffers answer `ErrNeedMore` -/
   needMore : List Nat
+  /-- size of the conn read the sniffer issues when it holds `l` bytes (`Buffer.ReadFromOnce` offers
+  `cap - len`, at least 512): pairs `(l, size)`; unlisted lengths read `relayBuf` -/
+  offer : List (Nat × Nat)
   /-- the upstream conn implements `CloseWrite` -/
   rightCW : Bool
   /-- the bare client conn implements `CloseWrite` -/
@@ -323,6 +326,9 @@ structure Front where
   armed : Option Nat
 deriving Repr
 
+/-- `conn.SetReadDeadline(time.Time{})` -/
+def Front.cleared (f : Front) : Front := { f with armed := none }
+
 inductive PeekRes where
   | ok | full | fail (e : RErr)
 deriving Repr
@@ -347,10 +353,10 @@ def be16 (b : Bytes) : Nat := b.getD 0 0 * 256 + b.getD 1 0
 /-- `handleTCPDnsFastPath` up to the point where it is decided whether the connection is DNS.
 `readDnsMsgFromBufio` arms `now+5s` and clears it on every exit (28bf897); nothing is consumed
 from the `bufio.Reader` unless the frame is a well-formed *query*. -/
-def dnsDetect (cfg : Cfg) (s : Script) : Front :=
+def dnsDetectRaw (cfg : Cfg) (s : Script) : Front :=
   let dl := some (cfg.start + dnsWindow)
   let through (t : Nat) (buf : Bytes) (rest : Script) : Front :=
-    ⟨.relay, t, .bufio buf, rest, none⟩
+    ⟨.relay, t, .bufio buf, rest, dl⟩
   let p1 := peekLoop dl 2 s.fuel s cfg.start []
   match p1.1 with
   | .ok =>
@@ -365,23 +371,31 @@ def dnsDetect (cfg : Cfg) (s : Script) : Front :=
         else if 128 ≤ buf.getD 4 0 then
           -- QR=1: not a query; rejected before Discard, the bytes stay buffered
           through p2.2.1 buf p2.2.2.2
-        else if cfg.dnsCtl then ⟨.dns, p2.2.1, .bufio (buf.drop (2 + len)), p2.2.2.2, none⟩
+        else if cfg.dnsCtl then ⟨.dns, p2.2.1, .bufio (buf.drop (2 + len)), p2.2.2.2, dl⟩
         else
           -- "dns controller is not available": the query is consumed, the connection ends
-          ⟨.abort, p2.2.1, .bufio (buf.drop (2 + len)), p2.2.2.2, none⟩
+          ⟨.abort, p2.2.1, .bufio (buf.drop (2 + len)), p2.2.2.2, dl⟩
       | _ => through p2.2.1 p2.2.2.1 p2.2.2.2
   | _ => through p1.2.1 p1.2.2.1 p1.2.2.2
+
+/-- …and the deferred `conn.SetReadDeadline(time.Time{})` of `readDnsMsgFromBufio` (28bf897) on every exit. -/
+def dnsDetect (cfg : Cfg) (s : Script) : Front := (dnsDetectRaw cfg s).cleared
+
+def offerAt (off : List (Nat × Nat)) (l : Nat) : Nat :=
+  match off.find? (fun p => p.1 == l) with
+  | some p => p.2
+  | none => relayBuf
 
 /-- the `SniffTcp` loop after the first read: keep reading while the sniffers say `ErrNeedMore`.
 The deadline `dl` was fixed when the sniffer was created.  Only a genuine stream error is latched
 in `dataError`; the sniffer's own timeout is not.  Returns (time, buffer, poisoned, rest). -/
-def sniffLoop (needMore : List Nat) (dl : Nat) : Nat → Script → Nat → Bytes → Nat × Bytes × Bool × Script
+def sniffLoop (needMore : List Nat) (off : List (Nat × Nat)) (dl : Nat) : Nat → Script → Nat → Bytes → Nat × Bytes × Bool × Script
   | 0, s, now, buf => (now, buf, false, s)
   | fuel + 1, s, now, buf =>
     if needMore.contains buf.length then
-      let r := s.readAt now (some dl) relayBuf
+      let r := s.readAt now (some dl) (offerAt off buf.length)
       match r.err with
-      | .none => sniffLoop needMore dl fuel r.rest r.t (buf ++ r.data)
+      | .none => sniffLoop needMore off dl fuel r.rest r.t (buf ++ r.data)
       | .eof =>
         -- ReadFromOnce maps EOF to nil: same buffer, same verdict; the loop spins until the
         -- deadline has passed and ends with the (unlatched) timeout
@@ -392,25 +406,30 @@ def sniffLoop (needMore : List Nat) (dl : Nat) : Nat → Script → Nat → Byte
 
 /-- `handleConn` for a sniff-eligible destination: prefetch (≤ 16 bytes, window `W`), prefix gate,
 `ConnSniffer`. -/
-def sniffFront (cfg : Cfg) (s : Script) : Front :=
-  let r := s.readAt cfg.start (some (cfg.start + cfg.window)) prefetchBytes
+def sniffFrontRaw (cfg : Cfg) (s : Script) : Front :=
+  let pdl := some (cfg.start + cfg.window)     -- armed by prefetchForTcpSniff
+  let r := s.readAt cfg.start pdl prefetchBytes
   match r.err with
-  | .reset => ⟨.abort, r.t, .plain, r.rest, none⟩
-  | .eof | .timeout => ⟨.relay, r.t, .plain, r.rest, none⟩
+  | .reset => ⟨.abort, r.t, .plain, r.rest, pdl⟩
+  | .eof | .timeout => ⟨.relay, r.t, .plain, r.rest, pdl⟩
   | .none =>
-    if r.data.isEmpty then ⟨.relay, r.t, .plain, r.rest, none⟩
-    else if !cfg.likely then ⟨.relay, r.t, .prefixed r.data, r.rest, none⟩
+    if r.data.isEmpty then ⟨.relay, r.t, .plain, r.rest, pdl⟩
+    else if !cfg.likely then ⟨.relay, r.t, .prefixed r.data, r.rest, pdl⟩
     else
       let dl := r.t + cfg.window
       -- first sniffer read goes through prefixedConn.Read: the prefix, then a blocking conn read
-      let r1 := r.rest.readAt r.t (some dl) relayBuf
+      let r1 := r.rest.readAt r.t (some dl) (offerAt cfg.offer r.data.length)
       let buf := r.data ++ r1.data
       match r1.err with
       | .none | .eof =>
-        let l := sniffLoop cfg.needMore dl r1.rest.fuel r1.rest r1.t buf
-        ⟨.relay, l.1, .sniffer l.2.1 l.2.2.1, l.2.2.2, none⟩
-      | .timeout => ⟨.relay, r1.t, .sniffer buf false, r1.rest, none⟩
-      | .reset => ⟨.relay, r1.t, .sniffer buf true, r1.rest, none⟩
+        let l := sniffLoop cfg.needMore cfg.offer dl r1.rest.fuel r1.rest r1.t buf
+        ⟨.relay, l.1, .sniffer l.2.1 l.2.2.1, l.2.2.2, some dl⟩
+      | .timeout => ⟨.relay, r1.t, .sniffer buf false, r1.rest, some dl⟩
+      | .reset => ⟨.relay, r1.t, .sniffer buf true, r1.rest, some dl⟩
+
+/-- …every probe clears what it armed: `prefetchForTcpSniff` right after its read,
+`readStreamOnceWithReadDeadline` by a deferred reset. -/
+def sniffFront (cfg : Cfg) (s : Script) : Front := (sniffFrontRaw cfg s).cleared
 
 /-- `handleConn` up to `routeDial`. -/
 def front (cfg : Cfg) (s : Script) : Front :=
@@ -439,6 +458,19 @@ def dirNatural (T : Nat) (content : Bytes) (poison : Bool) (s : Script) : DirRun
   else ⟨head ++ s.evs.map (fun e => ⟨max T e.t, e.data⟩), max T s.finT, s.fin == .eof⟩
 
 def cutBefore (t : Nat) (ds : List Deliv) : List Deliv := ds.filter fun d => d.t < t
+
+/-- the client→upstream direction when a read deadline `d` is (still) armed on the client socket:
+what was buffered is forwarded without a read, every read that would complete at or after `d`
+fails with a timeout instead, and that error ends the relay. -/
+def dirNaturalArmed (T : Nat) (content : Bytes) (poison : Bool) (armed : Option Nat) (s : Script) : DirRun :=
+  match armed with
+  | none => dirNatural T content poison s
+  | some d =>
+    let r := dirNatural T content poison s
+    if poison || r.endT < max T d then r
+    else
+      let head : List Deliv := if content.isEmpty then [] else [⟨T, content⟩]
+      ⟨head ++ cutBefore (max T d) (s.evs.map (fun e => ⟨max T e.t, e.data⟩)), max T d, false⟩
 
 /-- what both peers observe of one proxied connection -/
 structure Obs where
@@ -472,7 +504,7 @@ def resolve (first second : DirRun) (fwd : Bool) : List Deliv × Nat × Nat :=
 
 /-- relay phase of `handleConn`: `RelayTCPContextWithRecords(lRelayConn, rConn)` then the deferred closes. -/
 def relayPhase (cfg : Cfg) (f : Front) (up : Script) : Obs :=
-  let l2r := dirNatural f.T f.st.content f.st.poisoned f.rest
+  let l2r := dirNaturalArmed f.T f.st.content f.st.poisoned f.armed f.rest
   let r2l := dirNatural f.T [] false up
   if l2r.endT ≤ r2l.endT then
     let r := resolve l2r r2l cfg.rightCW
@@ -491,12 +523,15 @@ def conn (cfg : Cfg) (client up : Script) : Obs :=
 
 /-! ## Part 3 — the regenerated deadline path table (rows come from `Gen/DeadlinePaths.lean`) -/
 
-/-- one control-flow path from a call `X.SetReadDeadline(<non-zero>)` to an exit of its function -/
+/-- one control-flow path from an arming call — `X.SetReadDeadline(<non-zero>)`, `X.SetDeadline(<non-zero>)`,
+or a helper that forwards a deadline parameter to one of them — to an exit of its function -/
 structure PathRow where
   file : String
   func : String
   line : Nat
   recv : String
+  /-- the deadline expression as written -/
+  arg : String
   path : Nat
   /-- on this path the deadline is reset to zero (directly or by a registered defer), or the conn is closed -/
   cleared : Bool
@@ -504,10 +539,14 @@ structure PathRow where
   armFailed : Bool
 deriving Repr, DecidableEq
 
-/-- functions whose deadlines belong to the relay's own lifecycle (grace timer, force close), not to a probe -/
-def relayLifecycleFuncs : List String := ["relayCore.run"]
+/-- the ONE arming site that is meant to outlive its function: the half-close grace timer of
+`relayCore.run` (`dir.dst.SetReadDeadline(time.Now().Add(c.halfCloseTimeout))`), modelled by `resolve`.
+Keyed on function, receiver and deadline expression, so any other deadline armed in `relayCore.run`
+(or this one with another duration) is an ordinary row. -/
+def PathRow.isGraceTimer (r : PathRow) : Bool :=
+  r.func == "relayCore.run" && r.recv == "dir.dst" && r.arg == "time.Now().Add(c.halfCloseTimeout)"
 
 def PathRow.good (r : PathRow) : Bool :=
-  r.cleared || r.armFailed || relayLifecycleFuncs.contains r.func
+  r.cleared || r.armFailed || r.isGraceTimer
 
 end DaeVerif.C05
